@@ -123,6 +123,8 @@ package proxy
 //@   ensures [C05] upcancels >= old(upcancels) && (!ctxcancellable(old(req.ctx)) ==> upcancels == old(upcancels))
 //@   requires resp.StatusCode >= 100 && resp.StatusCode <= 999
 //@   ensures resp.StatusCode >= 100 && resp.StatusCode <= 999
+// A 304 keeps the stored body in service, whichever validator the revalidation carried.
+//@   ensures [C06] old(resp.StatusCode) == 304 && err == nil ==> cached != nil
 
 //@ props C09 C16
 //@ func fetcher.sendRequestToUpstream
@@ -211,7 +213,7 @@ package proxy
 //@   ghost callsite-requires [C06] fetchUpstream old(specNoConditionals(req.Header)) && len(cached.Metadata.Object.ETag) == 0 ==> !in(arg_req.Header, "If-None-Match")
 //@   ghost callsite-requires [C06] fetchUpstream cached.Metadata.Object.LastModified != 0 ==> in(arg_req.Header, "If-Modified-Since") && len(arg_req.Header["If-Modified-Since"]) == 1 && sid(arg_req.Header["If-Modified-Since"][0]) == timefmt(cached.Metadata.Object.LastModified)
 //@   ghost callsite-requires [C06] fetchUpstream old(specNoConditionals(req.Header)) ==> !in(arg_req.Header, "If-Match") && !in(arg_req.Header, "If-Unmodified-Since")
-//@   ghost callsite-requires [C06,C08] fetchUpstream arg_req != req && arg_req.Header != req.Header
+//@   ghost callsite-requires [C06,C08,C05,C09] fetchUpstream arg_req != req && arg_req.Header != req.Header
 //@   ghost callsite-requires [C06] handleCacheMiss old(specNoConditionals(req.Header)) ==> specNoConditionals(arg_req.Header)
 //@   ensures [C09] result1 == nil ==> specFetchShape(result0) && result0.Type == 0
 //@   ensures [C09] result1 != nil ==> iserr(result1, ErrNotCacheable) || upfails > old(upfails)
